@@ -15,7 +15,7 @@ import common as C
 
 TIERS = {
     # MC cfg, sample (every n-th fast-path-ok case is re-validated by TLC anyway), random events, tlc timeout
-    "quick": dict(cfg="MC_XPath_quick.cfg", sample=40, rnd=3000, groups=800, timeout=900),
+    "quick": dict(cfg="MC_XPath_quick.cfg", sample=50, rnd=2000, groups=500, timeout=900),
     "thorough": dict(cfg="MC_XPath_thorough.cfg", sample=300, rnd=120000, groups=25000, timeout=3000),
 }
 
